@@ -240,9 +240,9 @@ int c18_run(const char *tier) {
 	long sch = 0; int schex = 1;
 	{ const char *variant = getenv("VERIF_VARIANT"); int defv = variant && (!strcmp(variant, "autop") || !strcmp(variant, "autoz"));
 	  for (int f = 0; f < NFN && !defv; f++) { if (!c18_fns[f].takes_node) continue; uint8_t sp[1] = {(uint8_t) f}; char label[120]; snprintf(label, sizeof label, "c18.sched %s || bidib_send_sys_ping", c18_fns[f].name);
-		e1_spec_t es = { .harness = "c18.sched", .param = sp, .nparam = 1, .bound = thorough ? 2 : 1, .label = strdup(label) };
+		e1_spec_t es = { .harness = "c18.sched", .param = sp, .nparam = 1, .bound = thorough ? 2 : 1, .label = strdup(label), .unlock_points = 1 };      /* a send function that still touches the message after dropping the send mutex is interruptible there */
 		e1_explore(&es); for (int k = 0; k < 8; k++) sch += es.schedules_by_cost[k]; if (!es.exhaustive) schex = 0; }
-	  if (!defv) rep_note("c18.sched: every function with a node parameter against a concurrent ping to a node of another depth, %ld schedules, preemption bound %d", sch, thorough ? 2 : 1); }
+	  if (!defv) rep_note("c18.sched: every function with a node parameter against a concurrent ping to a node of another depth, scheduling points after unlocks, %ld schedules, preemption bound %d", sch, thorough ? 2 : 1); }
 	execs += sch; if (!schex) exhaustive = 0;
 	long calls = rep_get("c18_accepted") + rep_get("c18_rejected");
 	rep_count("executions", execs); rep_count("states", states ? states : 1); rep_count("transitions", calls); rep_count("distinct_nontrivial", calls);
